@@ -1,6 +1,7 @@
 import Lean.Data.Json
 import SpoxModel.Model.BuildAlg
 import SpoxModel.Model.Bridge
+import SpoxModel.Model.DfsMany
 /-! Line-protocol handler for C04: run the `Builder` model on an abstract program and report
     `graph_topo`, `arguments_of`, `scope_of`, `scope_own`, the flattened nested emission, the
     structural-check verdict and the error class. Vertices: node `n` ↦ `n`, source of graph `g` ↦ `-1-g`. -/
@@ -55,13 +56,13 @@ def pubJ (p : Prog) (req : Json) : List (String × Json) :=
                            ("struct_ok", structOk (p.withMainArgs none) tr [])])]
 
 /-- round 10: `iterative_dfs(sources, adj, post_callback)` on an explicit graph (vertex = index into
-    `adj`), answered by the model's `visit` (the definition `visit_spec`, `emitted_iff_reachable`,
+    `adj`), answered by the model's `visitMany` = `visit` (the definition `visit_spec`, `emitted_iff_reachable`,
     `least_enclosing` … talk about) folded over the sources with one shared post-order/visited list. -/
 def dfsJ (j : Json) : Json :=
   match j.getObjValAs? (List (List Nat)) "adj", j.getObjValAs? (List Nat) "sources" with
   | .ok adj, .ok sources =>
     let a : Nat → List Nat := fun v => (adj[v]?).getD []
-    let post := sources.foldl (fun post s => visit a (adj.length + 2) s post) []
+    let post := visitMany a (adj.length + 2) sources []
     Json.mkObj [("post", toJson post)]
   | _, _ => Json.mkObj [("error", "dfs: adj/sources expected")]
 
